@@ -6,6 +6,7 @@ mod codec;
 mod conc;
 mod crash;
 mod f3;
+mod failpath;
 mod fsm;
 mod img;
 mod inflight;
@@ -41,6 +42,8 @@ fn main() {
         "sweep" => race::run_sweep(&opts),
         "sweepsched" => sweepsched::run(&opts),
         "abuf" => abuf::run(&opts),
+        "failpath" => failpath::run(&opts),
+        "failpathchild" => failpath::child(&opts),
         "scansched" => scansched::run(&opts),
         "scanschedchild" => scansched::child(&opts),
         "sweepschedchild" => sweepsched::child(&opts),
